@@ -282,11 +282,12 @@ func (m *Manager) manageReader() {
 		// a new stream to be created and try again. like an invoke, we
 		// implicitly close any previous stream.
 		default:
-			// a control packet for a stream that was never invoked (for
-			// example a soft cancel that raced the creation of the stream)
-			// has nothing to act on, and no such stream will ever be
-			// created, so waiting for it would block the reader forever.
-			if pkt.Control && pkt.ID.Stream != invoked {
+			// a packet for a stream that was never invoked (for example a
+			// soft cancel that raced the creation of the stream, or the
+			// close of a call whose request failed to marshal) has nothing
+			// to act on, and no such stream will ever be created, so
+			// waiting for it would block the reader forever.
+			if pkt.ID.Stream != invoked {
 				continue
 			}
 
